@@ -81,6 +81,7 @@ V_HARNESS(h_c16_txt_table)
   r = vbi_print_page_region(&PAGE, (char *) OUT, TSIZE, c16_format(), /* table */ TRUE, /* rtl */ FALSE, column, row, width, height);
 
   V_ASSERT(C16_ICONV.n_open == C16_ICONV.n_close, "iconv_descriptors_closed");
+  V_ASSERT(PAGE.columns == PC && PAGE.rows == PR, "page_geometry_untouched");
   if (!c16_region_valid() || CS > 3) {
     V_ASSERT(r == 0, "invalid_region_or_charset_returns_zero");
     V_REACH("invalid");
